@@ -60,7 +60,8 @@ def iter_at(g, u0, j, aux_key=""):
                 rng = [z3.And(v >= 0, v < smt.z(dim_term(sz))) for v, sz in zip(bv2, l2.shape)]
                 e.hyps.extend(rng)
                 try:
-                    el = l2.at_(tuple(bv2))
+                    with ops.nested("O"):
+                        el = l2.at_(tuple(bv2))
                 finally:
                     del e.hyps[len(e.hyps) - len(rng):]
                 if isinstance(el, CX):
